@@ -60,16 +60,22 @@ def run(ctx):
                 k = nh * (2 if flavour == 'rel' else 1) // (3 if y[1] else 1)
                 jobs.append(dict(kind='hist', flavour=flavour, threads=t, tag='h%d' % n,
                                  cmd=[e, '--mode', 'hist', '--threads', t, '--ops', ops, '--histories', max(20, k), '--seed', ctx.seed * 1000 + n, '--yield', y[0], '--yield-us', y[1]]))
+        # long delays (<= 1.5 ms) at the table's yield sites, few histories: a whole resize by another thread fits inside a delay
+        for (t, ops) in ((3, 10), (4, 10), (6, 8)):
+            n += 1
+            jobs.append(dict(kind='hist', flavour=flavour, threads=t, tag='h%d' % n,
+                             cmd=[e, '--mode', 'hist', '--threads', t, '--ops', ops, '--histories', max(20, nh // 4), '--seed', ctx.seed * 1000 + n, '--yield', 500, '--yield-us', 1500]))
         # waves: all threads fill a fresh table through its generations, then all drain it at once (traffic on the older tables);
         # plus epochs of random mixed operations
         wave_epochs = 4000 if thorough else 250
         for (t, keys, hint, hm, y, rnds, eps) in ((8, 128, 16, 0, 0, 0, wave_epochs), (16, 64, 16, 0, 0, 0, wave_epochs), (8, 128, 2, 0, 0, 0, wave_epochs // 2),
                                                   (4, 256, 16, 0, 100, 0, wave_epochs // 2), (8, 64, 16, 5, 0, 0, wave_epochs // 2), (3, 100, 1, 0, 300, 0, wave_epochs // 2),
-                                                  (8, 128, 1, 0, 0, rounds, 4), (16, 64, 2, 0, 100, rounds, 4), (4, 256, 1, 13, 200, rounds, 4)):
+                                                  (8, 128, 1, 0, 0, rounds, 4), (16, 64, 2, 0, 100, rounds, 4), (4, 256, 1, 13, 200, rounds, 4),
+                                                  (6, 96, 1, 0, 501, 0, max(20, wave_epochs // 8)), (4, 64, 2, 0, 501, rounds // 6, 2)):
             n += 1
             jobs.append(dict(kind='stress', flavour=flavour, threads=t, tag='s%d' % n,
                              cmd=[e, '--mode', 'stress', '--threads', t, '--keys', keys, '--shared', 8, '--hint', hint, '--hmod', hm, '--maxbits', 12 if hm == 0 else 9,
-                                  '--rounds', rnds, '--epochs', eps, '--seed', ctx.seed * 1000 + n, '--yield', y]))
+                                  '--rounds', rnds, '--epochs', eps, '--seed', ctx.seed * 1000 + n, '--yield', y] + (['--yield-us', 1500] if y == 501 else [])))
 
     def one(j):
         if ctx.violations:
